@@ -343,32 +343,207 @@ theorem exec_good : ∀ (f : Nat), IH sc f := by
            | (simp only []; rw [hg, hadj _ rfl rfl]; rfl)
          · intro w2 v hI2 hle2 hwf2 hg2 hv
            exact good_leaf hle2 hg2 hwf2)
-    | load b =>
-      simp only [exec]
-      refine good_ite (fun h => crash_absurd (by simp [anyFreed_ot hI] at h)) (fun _ => ?_)
-      have hl := lookupC_inv { base := b, num := none } hI
-      have hle1 := nfle_lookupC w.c { base := b, num := none }
-      split
-      · rename_i i hsome
-        have := (lookupC_spec hI _ i).mp hsome
-        exact good_val hle1 hg (fun g hgg => hle1 g (hwf g hgg)) (fun x hx => by cases hx; exact hle1 _ (live_nf hI this.1 this.2.1))
-      · rename_i hnone
-        have hsame := lookupC_none_core hnone
-        have hfree := lookupC_none_free hI hnone
-        have hA := nfle_alloc (cl := false) hI hfree
-        have halloc : Inv (alloc (lookupC w.c { base := b, num := none }).1 { base := b, num := none } false).1 := by
-          rw [hsame]; exact alloc_inv hI hfree (by simp)
-        rw [← hsame] at hA
+    | load b strict =>
+      have hstrict : ∀ (c0 : Core) (w1 : World) (v : Option Nat), NFle c0 w1.c → w1.initBad = false → WorldWf w1 →
+          (∀ x, v = some x → NF w1.c x) → Good c0 (match v with
+            | none => ({ w := w1, val := none } : R)
+            | some ob => if strict = true ∧ (w1.c.objs ob).destructed = true then { w := w1, val := none }
+                         else { w := w1, val := some ob }) := by
+        intro c0 w1 v hle hg1 hwf1 hv
         split
-        · exact good_val hle1 hg (fun g hgg => hle1 g (hwf g hgg)) (by simp)
-        · exact good_raise hle1 hg (fun g hgg => hle1 g (hwf g hgg))
-        all_goals
-          refine step_good sc ih halloc ⟨hA.2, by intro y h; cases h⟩ (fun g hgg => hA.1 g (hle1 g (hwf g hgg))) hg (hle1.trans hA.1) ?_
-          intro w2 v hI2 hle2 hwf2 hg2 hv
-          have hcg : WorldWf { w2 with cg := w.cg } := fun g hgg => hle2 g (hA.1 g (hle1 g (hwf g hgg)))
+        · exact good_val hle hg1 hwf1 (by simp)
+        · rename_i ob
+          exact good_ite (fun _ => good_val hle hg1 hwf1 (by simp))
+            (fun _ => good_val hle hg1 hwf1 (fun x hx => by cases hx; exact hv ob rfl))
+      have hS : ∀ (c0 : Core) (w1 : World) (ob : Nat), NFle c0 w1.c → w1.initBad = false → WorldWf w1 → NF w1.c ob →
+          Good c0 (if strict = true ∧ (w1.c.objs ob).destructed = true then ({ w := w1, val := none } : R)
+                   else { w := w1, val := some ob }) := by
+        intro c0 w1 ob hle hg1 hwf1 hv
+        exact good_ite (fun _ => good_val hle hg1 hwf1 (by simp))
+          (fun _ => good_val hle hg1 hwf1 (fun x hx => by cases hx; exact hv))
+      cases b with
+      | nofile =>
+        simp only [exec]
+        refine good_ite (fun h => crash_absurd (by simp [anyFreed_ot hI] at h)) (fun _ => ?_)
+        have hl := lookupC_inv { base := .nofile, num := none } hI
+        have hle1 := nfle_lookupC w.c { base := .nofile, num := none }
+        have hwf1 : ∀ g, w.cg = some g → NF (lookupC w.c { base := .nofile, num := none }).1 g := fun g hgg => hle1 g (hwf g hgg)
+        split
+        · rename_i i hsome
+          have := (lookupC_spec hI _ i).mp hsome
+          exact good_val hle1 hg hwf1 (fun x hx => by cases hx; exact hle1 _ (live_nf hI this.1 this.2.1))
+        · rename_i hnone
+          have hsame := lookupC_none_core hnone
+          have hfree := lookupC_none_free hI hnone
+          have hA := nfle_alloc (cl := false) (nm := { base := .nofile, num := none }) hI hfree
+          have halloc : Inv (alloc (lookupC w.c { base := .nofile, num := none }).1 { base := .nofile, num := none } false).1 := by
+            rw [hsame]; exact alloc_inv hI hfree (by simp)
+          rw [← hsame] at hA
+          refine good_ite (fun _ => good_raise hle1 hg hwf1) (fun _ => ?_)
+          simp only [leaf_andThen]
+          exact good_val hle1 hg hwf1 (by simp)
+      | badfile =>
+        simp only [exec]
+        refine good_ite (fun h => crash_absurd (by simp [anyFreed_ot hI] at h)) (fun _ => ?_)
+        have hl := lookupC_inv { base := .badfile, num := none } hI
+        have hle1 := nfle_lookupC w.c { base := .badfile, num := none }
+        have hwf1 : ∀ g, w.cg = some g → NF (lookupC w.c { base := .badfile, num := none }).1 g := fun g hgg => hle1 g (hwf g hgg)
+        split
+        · rename_i i hsome
+          have := (lookupC_spec hI _ i).mp hsome
+          exact good_val hle1 hg hwf1 (fun x hx => by cases hx; exact hle1 _ (live_nf hI this.1 this.2.1))
+        · rename_i hnone
+          have hsame := lookupC_none_core hnone
+          have hfree := lookupC_none_free hI hnone
+          have hA := nfle_alloc (cl := false) (nm := { base := .badfile, num := none }) hI hfree
+          have halloc : Inv (alloc (lookupC w.c { base := .badfile, num := none }).1 { base := .badfile, num := none } false).1 := by
+            rw [hsame]; exact alloc_inv hI hfree (by simp)
+          rw [← hsame] at hA
+          refine good_ite (fun _ => good_raise hle1 hg hwf1) (fun _ => ?_)
+          simp only [raise_andThen]
+          exact good_raise hle1 hg hwf1
+      | ih k =>
+        simp only [exec]
+        refine good_ite (fun h => crash_absurd (by simp [anyFreed_ot hI] at h)) (fun _ => ?_)
+        have hl := lookupC_inv { base := .ih k, num := none } hI
+        have hle1 := nfle_lookupC w.c { base := .ih k, num := none }
+        have hwf1 : ∀ g, w.cg = some g → NF (lookupC w.c { base := .ih k, num := none }).1 g := fun g hgg => hle1 g (hwf g hgg)
+        split
+        · rename_i i hsome
+          have := (lookupC_spec hI _ i).mp hsome
+          exact good_val hle1 hg hwf1 (fun x hx => by cases hx; exact hle1 _ (live_nf hI this.1 this.2.1))
+        · rename_i hnone
+          have hsame := lookupC_none_core hnone
+          have hfree := lookupC_none_free hI hnone
+          have hA := nfle_alloc (cl := false) (nm := { base := .ih k, num := none }) hI hfree
+          have halloc : Inv (alloc (lookupC w.c { base := .ih k, num := none }).1 { base := .ih k, num := none } false).1 := by
+            rw [hsame]; exact alloc_inv hI hfree (by simp)
+          rw [← hsame] at hA
+          refine good_ite (fun _ => good_raise hle1 hg hwf1) (fun _ => ?_)
+          have hlB := lookupC_inv { base := .bp k, num := none } hl
+          have hleB := nfle_lookupC (lookupC w.c { base := .ih k, num := none }).1 { base := .bp k, num := none }
+          have hnB := lookupC_n (lookupC w.c { base := .ih k, num := none }).1 { base := .bp k, num := none }
+          have hn0 := lookupC_n w.c { base := .ih k, num := none }
+          have hle2 := hle1.trans hleB
+          have hwf2 : ∀ g, w.cg = some g → NF (lookupC (lookupC w.c { base := .ih k, num := none }).1 { base := .bp k, num := none }).1 g :=
+            fun g hgg => hleB g (hwf1 g hgg)
           split
-          · exact good_val ((hle1.trans hA.1).trans hle2) hg2 hcg (by simp)
-          · exact good_val ((hle1.trans hA.1).trans hle2) hg2 hcg (fun x hx => by cases hx; exact hle2 _ hA.2)
+          · rename_i r hr
+            split at hr
+            · exfalso
+              rename_i hfr
+              simp [anyFreed_ot hl] at hfr
+            · split at hr
+              · cases hr
+              · cases hr
+                simp only [andThen_assoc]
+                refine step_good sc ih (by exact hlB) trivial (by exact hwf2) (by exact hg) hle2 ?_
+                intro w3 v3 hI3 hle3 hwf3 hg3 hv3
+                split
+                · simp only [raise_andThen]
+                  exact good_raise (hle2.trans hle3) hg3 hwf3
+                · simp only [andThen_assoc]
+                  refine step_good sc ih hI3 trivial hwf3 hg3 (hle2.trans hle3) ?_
+                  intro w4 v4 hI4 hle4 hwf4 hg4 hv4
+                  simp only [leaf_andThen]
+                  refine hstrict _ _ _ ?_ ?_ ?_ ?_
+                  · exact (hle2.trans hle3).trans hle4
+                  · exact hg4
+                  · exact hwf4
+                  · exact hv4
+          · rename_i w' hr
+            split at hr
+            · cases hr
+            · split at hr
+              · cases hr
+                have hfree' : ∀ i, i < (lookupC (lookupC w.c { base := .ih k, num := none }).1 { base := .bp k, num := none }).1.n →
+                    ((lookupC (lookupC w.c { base := .ih k, num := none }).1 { base := .bp k, num := none }).1.objs i).destructed = false →
+                    ((lookupC (lookupC w.c { base := .ih k, num := none }).1 { base := .bp k, num := none }).1.objs i).name ≠ { base := .ih k, num := none } := by
+                  intro i hi hd
+                  rw [hnB.1, hn0.1] at hi
+                  rw [hnB.2, hn0.2] at hd ⊢
+                  exact hfree i hi hd
+                have hA2 := nfle_alloc (cl := false) (nm := { base := .ih k, num := none }) hlB hfree'
+                have halloc2 := alloc_inv (cl := false) hlB hfree' (by simp)
+                simp only [andThen_assoc]
+                refine step_good sc ih (by exact halloc2) ⟨hA2.2, by intro y h; cases h⟩ (fun g hgg => hA2.1 g (hwf2 g hgg)) (by exact hg) (hle2.trans hA2.1) ?_
+                intro w3 v3 hI3 hle3 hwf3 hg3 hv3
+                simp only [leaf_andThen]
+                refine good_ite (fun _ => good_val ((hle2.trans hA2.1).trans hle3) (by exact hg3) (fun g hgg => hle3 g (hA2.1 g (hwf2 g hgg))) (by simp))
+                  (fun _ => good_val ((hle2.trans hA2.1).trans hle3) (by exact hg3) (fun g hgg => hle3 g (hA2.1 g (hwf2 g hgg))) (fun x hx => by cases hx; exact hle3 _ hA2.2))
+              · cases hr
+      | bp k =>
+        simp only [exec]
+        refine good_ite (fun h => crash_absurd (by simp [anyFreed_ot hI] at h)) (fun _ => ?_)
+        have hl := lookupC_inv { base := .bp k, num := none } hI
+        have hle1 := nfle_lookupC w.c { base := .bp k, num := none }
+        have hwf1 : ∀ g, w.cg = some g → NF (lookupC w.c { base := .bp k, num := none }).1 g := fun g hgg => hle1 g (hwf g hgg)
+        split
+        · rename_i i hsome
+          have := (lookupC_spec hI _ i).mp hsome
+          exact good_val hle1 hg hwf1 (fun x hx => by cases hx; exact hle1 _ (live_nf hI this.1 this.2.1))
+        · rename_i hnone
+          have hsame := lookupC_none_core hnone
+          have hfree := lookupC_none_free hI hnone
+          have hA := nfle_alloc (cl := false) (nm := { base := .bp k, num := none }) hI hfree
+          have halloc : Inv (alloc (lookupC w.c { base := .bp k, num := none }).1 { base := .bp k, num := none } false).1 := by
+            rw [hsame]; exact alloc_inv hI hfree (by simp)
+          rw [← hsame] at hA
+          refine good_ite (fun _ => good_raise hle1 hg hwf1) (fun _ => ?_)
+          simp only [andThen_assoc]
+          refine step_good sc ih (by exact halloc) ⟨hA.2, by intro y h; cases h⟩ (fun g hgg => hA.1 g (hwf1 g hgg)) (by exact hg) (hle1.trans hA.1) ?_
+          intro w2 v hI2 hle2 hwf2 hg2 hv
+          simp only [leaf_andThen]
+          refine good_ite (fun _ => good_val ((hle1.trans hA.1).trans hle2) (by exact hg2) (fun g hgg => hle2 g (hA.1 g (hwf1 g hgg))) (by simp))
+            (fun _ => good_val ((hle1.trans hA.1).trans hle2) (by exact hg2) (fun g hgg => hle2 g (hA.1 g (hwf1 g hgg))) (fun x hx => by cases hx; exact hle2 _ hA.2))
+      | master =>
+        simp only [exec]
+        refine good_ite (fun h => crash_absurd (by simp [anyFreed_ot hI] at h)) (fun _ => ?_)
+        have hl := lookupC_inv { base := .master, num := none } hI
+        have hle1 := nfle_lookupC w.c { base := .master, num := none }
+        have hwf1 : ∀ g, w.cg = some g → NF (lookupC w.c { base := .master, num := none }).1 g := fun g hgg => hle1 g (hwf g hgg)
+        split
+        · rename_i i hsome
+          have := (lookupC_spec hI _ i).mp hsome
+          exact good_val hle1 hg hwf1 (fun x hx => by cases hx; exact hle1 _ (live_nf hI this.1 this.2.1))
+        · rename_i hnone
+          have hsame := lookupC_none_core hnone
+          have hfree := lookupC_none_free hI hnone
+          have hA := nfle_alloc (cl := false) (nm := { base := .master, num := none }) hI hfree
+          have halloc : Inv (alloc (lookupC w.c { base := .master, num := none }).1 { base := .master, num := none } false).1 := by
+            rw [hsame]; exact alloc_inv hI hfree (by simp)
+          rw [← hsame] at hA
+          refine good_ite (fun _ => good_raise hle1 hg hwf1) (fun _ => ?_)
+          simp only [andThen_assoc]
+          refine step_good sc ih (by exact halloc) ⟨hA.2, by intro y h; cases h⟩ (fun g hgg => hA.1 g (hwf1 g hgg)) (by exact hg) (hle1.trans hA.1) ?_
+          intro w2 v hI2 hle2 hwf2 hg2 hv
+          simp only [leaf_andThen]
+          refine good_ite (fun _ => good_val ((hle1.trans hA.1).trans hle2) (by exact hg2) (fun g hgg => hle2 g (hA.1 g (hwf1 g hgg))) (by simp))
+            (fun _ => good_val ((hle1.trans hA.1).trans hle2) (by exact hg2) (fun g hgg => hle2 g (hA.1 g (hwf1 g hgg))) (fun x hx => by cases hx; exact hle2 _ hA.2))
+      | simul =>
+        simp only [exec]
+        refine good_ite (fun h => crash_absurd (by simp [anyFreed_ot hI] at h)) (fun _ => ?_)
+        have hl := lookupC_inv { base := .simul, num := none } hI
+        have hle1 := nfle_lookupC w.c { base := .simul, num := none }
+        have hwf1 : ∀ g, w.cg = some g → NF (lookupC w.c { base := .simul, num := none }).1 g := fun g hgg => hle1 g (hwf g hgg)
+        split
+        · rename_i i hsome
+          have := (lookupC_spec hI _ i).mp hsome
+          exact good_val hle1 hg hwf1 (fun x hx => by cases hx; exact hle1 _ (live_nf hI this.1 this.2.1))
+        · rename_i hnone
+          have hsame := lookupC_none_core hnone
+          have hfree := lookupC_none_free hI hnone
+          have hA := nfle_alloc (cl := false) (nm := { base := .simul, num := none }) hI hfree
+          have halloc : Inv (alloc (lookupC w.c { base := .simul, num := none }).1 { base := .simul, num := none } false).1 := by
+            rw [hsame]; exact alloc_inv hI hfree (by simp)
+          rw [← hsame] at hA
+          refine good_ite (fun _ => good_raise hle1 hg hwf1) (fun _ => ?_)
+          simp only [andThen_assoc]
+          refine step_good sc ih (by exact halloc) ⟨hA.2, by intro y h; cases h⟩ (fun g hgg => hA.1 g (hwf1 g hgg)) (by exact hg) (hle1.trans hA.1) ?_
+          intro w2 v hI2 hle2 hwf2 hg2 hv
+          simp only [leaf_andThen]
+          refine good_ite (fun _ => good_val ((hle1.trans hA.1).trans hle2) (by exact hg2) (fun g hgg => hle2 g (hA.1 g (hwf1 g hgg))) (by simp))
+            (fun _ => good_val ((hle1.trans hA.1).trans hle2) (by exact hg2) (fun g hgg => hle2 g (hA.1 g (hwf1 g hgg))) (fun x hx => by cases hx; exact hle2 _ hA.2))
     | clone b =>
       simp only [exec, hbRemove_c, hbRemove_cg, hbRemove_initBad]
       refine step_good sc ih hI trivial hwf hg (NFle.refl _) ?_
